@@ -173,7 +173,9 @@ impl CertificateInfo {
 
     /// Check if certificate is expired
     pub fn is_expired(&self) -> bool {
-        self.days_until_expiry < 0
+        // days_until_expiry is whole days truncated towards zero, so it is still 0 during the
+        // first 24 hours after expiry: compare the instants as well.
+        self.days_until_expiry < 0 || SystemTime::now() > self.not_after
     }
 
     /// Check if certificate is expiring soon
